@@ -108,7 +108,17 @@ static void judge_text(const uint8_t* s, size_t n, bool all_paths, bool distinct
   size_t want = rc < 0 ? 0 : (size_t)rc;
   vf_cnt(rc < 0 ? K_INVALID : K_VALID, 1);
   /* (1) cbor_string_set_handle on an existing definite string, at every alignment of the handle for longer strings */
-  if (n <= 100) {
+  if (n > 4096) { /* long strings: one attach, on a handle of their own */
+    unsigned char* h = malloc(n);
+    memcpy(h, s, n);
+    cbor_string_set_handle(reuse_item, h, n);
+    vf_cnt(K_SETHANDLE, 1);
+    if (cbor_string_codepoint_count(reuse_item) != want)
+      vf_fail(NULL, "cbor_string_set_handle on a %zu-byte text: codepoint count %zu, RFC 3629 count %s%zu", n, cbor_string_codepoint_count(reuse_item), rc < 0 ? "(invalid) " : "", want);
+    if (cbor_string_length(reuse_item) != n || memcmp(h, s, n)) vf_fail(NULL, "cbor_string_set_handle changed length or content");
+    cbor_string_set_handle(reuse_item, reuse_handle, 0);
+    free(h);
+  } else if (n <= 100) {
     for (unsigned off = 0; off < (n >= 4 ? 8u : 1u); off++) {
       unsigned char* h = reuse_handle + off;
       memcpy(h, s, n);
@@ -135,7 +145,7 @@ static void judge_text(const uint8_t* s, size_t n, bool all_paths, bool distinct
     cbor_decref(&it);
   }
   /* (3) cbor_load of a definite text string head followed by the bytes */
-  uint8_t enc[9 + 4096];
+  static uint8_t enc[9 + (1 << 18)];
   size_t hl = ref_put_head(enc, sizeof enc, 0, 3, n, 0);
   memcpy(enc + hl, s, n);
   in = vf_guard_put(enc, hl + n);
@@ -164,7 +174,7 @@ static void judge_text(const uint8_t* s, size_t n, bool all_paths, bool distinct
   }
   /* (5) the same bytes decoded as a chunk of an indefinite text string: every chunk is a definite text string of its own */
   if (n <= 3 || !bulk4) {
-    uint8_t enc2[11 + 4096];
+    static uint8_t enc2[11 + (1 << 18)];
     enc2[0] = 0x7f;
     memcpy(enc2 + 1, enc, hl + n);
     enc2[1 + hl + n] = 0xff;
@@ -262,6 +272,22 @@ static void fault_unit(uint64_t u) {
     judge_text(big, n, true, true);
     big[n - 1] = 0xc0;
     judge_text(big, n, true, true);
+    /* texts longer than any block a counting loop might work in: a 2-, 3- or 4-byte scalar straddling every power of two from 4 KiB to 128 KiB at
+     * every phase, in otherwise plain ASCII; and the same texts cut inside their last scalar */
+    static uint8_t lng[(1 << 17) + 128];
+    for (unsigned k = 12; k <= 17; k++) {
+      size_t B = (size_t)1 << k;
+      for (unsigned w = 2; w <= 4; w++)
+        for (unsigned back = 1; back < w; back++) {
+          size_t len = B + 64;
+          memset(lng, 'a', len);
+          (void)put_scalar(lng + B - back, w == 2 ? 0xe9 : w == 3 ? 0x20ac : 0x1f600);
+          vf_cnt(K_LONG, 1);
+          judge_text(lng, len, true, true);
+          /* ending right inside that scalar: invalid */
+          judge_text(lng, B, true, false);
+        }
+    }
   }
 }
 /* position sweep: every string ASCII^p . probe . ASCII^s (and two probes with an ASCII gap) up to a total length that spans several
